@@ -71,21 +71,24 @@ func (fs *flagScanner) AppendChar(ch byte) { fs.buf = append(fs.buf, ch) }
 func (fs *flagScanner) String() string { return string(fs.buf) }
 
 func (fs *flagScanner) Next() (byte, bool) {
-	c := byte('\000')
-	fs.ChangeFlag = false
-	if fs.Pos == fs.Length {
-		if fs.HasFlag {
-			fs.AppendString(fs.end)
+	// a loop, not a recursion: a doubled flag character is consumed and scanning simply goes on
+	// (one Go stack frame per "%%" overflowed the stack on a format of a few million pairs)
+	for {
+		c := byte('\000')
+		fs.ChangeFlag = false
+		if fs.Pos == fs.Length {
+			if fs.HasFlag {
+				fs.AppendString(fs.end)
+			}
+			return c, true
 		}
-		return c, true
-	} else {
 		c = fs.str[fs.Pos]
 		if c == fs.flag {
 			if fs.Pos < (fs.Length-1) && fs.str[fs.Pos+1] == fs.flag {
 				fs.HasFlag = false
 				fs.AppendChar(fs.flag)
 				fs.Pos += 2
-				return fs.Next()
+				continue
 			} else if fs.Pos != fs.Length-1 {
 				if fs.HasFlag {
 					fs.AppendString(fs.end)
@@ -95,9 +98,9 @@ func (fs *flagScanner) Next() (byte, bool) {
 				fs.HasFlag = true
 			}
 		}
+		fs.Pos++
+		return c, false
 	}
-	fs.Pos++
-	return c, false
 }
 
 // cDateFlagToGo maps a strftime conversion to the Go layout that renders what C renders in the
